@@ -39,7 +39,32 @@ def cases(tier, seed):
         if not any(h.startswith("synth") for h in hist[2:]):
             hist.append(rng.choice(["synth_sat", "synth_random"]))
         out.append({"cls": "cont" if cs["cont"] else "discrete", "cspec": cs, "history": hist})
+    # appended stream: histories on the other design classes (LatinSquare, Sequential, combinators, several crossings;
+    # constraints and combinators may keep state of their own). Where the reference model leaves validity undecided
+    # the later sequences are compared with what a FRESH block of the same design can return.
+    from vlib import gen2
+    wide = ["K13", "K13", "K12", "K6", "K13", "K8", "K9", "K11", "K4", "A3"]
+    for i in range(500 if tier == "thorough" else 90):
+        rng = random.Random("c19w/%s/%d" % (seed, i))
+        cls = wide[i % len(wide)]
+        base = gen2.KINDS[cls](rng) if cls in gen2.KINDS else gen.gen_spec(rng, cls)
+        hist = [rng.choice(["synth_sat", "synth_random"])] + [rng.choice(OPS + ["mismatch_bad", "synth_random"])
+                                                              for _ in range(rng.randint(3, 7))]
+        hist.append("synth_sat")
+        out.append({"cls": "wide-" + cls, "cspec": {"base": base, "cont": [], "ccons": []}, "history": hist})
     return out
+
+
+FRESH_CAP = 400
+
+
+def fresh_set(cspec, strat):
+    """every sequence an unused block of the same design can return with this kind of sampler (None if too many /
+    it fails)"""
+    r, err, st = D.exhaust(cspec["base"], strat, FRESH_CAP, 12)
+    if err or st != "ok":
+        return None
+    return set(O.seq_key(e) for e in r)
 
 
 def snapshot(block):
@@ -64,17 +89,30 @@ def run_case(case):
     decided = not (fl.ctor_err or fl.und_T or fl.und or fl.T is None)
     user = S.tree_design(cspec["base"]["block"])
     base = snapshot(block)
+    if decided and base["T"] != fl.T:
+        # the trial count itself is C16's subject; validity against R is then not decidable here
+        decided = False
+        counters["trial_count_differs_from_R"] = 1
     viol = []
     exps = None
     first_keys = None
     later = 0
     calls = 0
     strat = {"synth_sat": "IterateSATGen", "synth_random": "RandomGen", "synth_cms": "CMSGen"}
+    fresh_by = {}
+    wide = case["cls"].startswith("wide-")
     for step, op in enumerate(case["history"]):
         calls += 1
         res, err = None, None
         if op.startswith("synth"):
-            res, err, out = O.quiet(sp.synthesize_trials, block, 2, getattr(sp, strat[op]))
+            if wide:
+                res, err, st = D.call_budgeted(8, sp.synthesize_trials, block, 2, getattr(sp, strat[op]))
+                if st == "timeout":
+                    # a call that does not return within the budget is not judged, and the block is not used further
+                    counters["synth_budget_exceeded"] = 1
+                    break
+            else:
+                res, err, out = O.quiet(sp.synthesize_trials, block, 2, getattr(sp, strat[op]))
             if first_keys is None:
                 if err or not res:
                     counters["first_synthesis_failed_or_empty"] = 1
@@ -102,6 +140,16 @@ def run_case(case):
                         why += cont.check_sequence(cspec, e, base["T"])
                         if decided:
                             why += ref.valid(cspec["base"], fl, {k: v for k, v in e.items() if k in user})
+                        elif wide and not cspec["cont"]:
+                            fam = "RandomGen" if op == "synth_random" else "IterateSATGen"
+                            if fam not in fresh_by:
+                                fresh_by[fam] = fresh_set(cspec, fam)
+                            fresh_seqs = fresh_by[fam]
+                            if fresh_seqs is not None:
+                                counters["judged_against_fresh_block"] = counters.get("judged_against_fresh_block", 0) + 1
+                                if O.seq_key(e) not in fresh_seqs:
+                                    why.append("an unused block of the same design never returns this sequence "
+                                               "(it returns %d others)" % len(fresh_seqs))
                     if why:
                         viol.append({"kind": "later_synthesis_invalid", "strategy": strat[op], "step": step,
                                      "msg": "after %s: %s returned %s ; %s" % (case["history"][:step], strat[op], str(e)[:200], why[0][:300])})
@@ -124,6 +172,15 @@ def run_case(case):
             res, err, out = O.quiet(sp.experiments_to_dicts, block, exps)
         elif op == "mismatch":
             disc = {k: v for k, v in exps[0].items() if k in user}
+            res, err, out = O.quiet(sp.sample_mismatch_experiment, block, disc)
+        elif op == "mismatch_bad":
+            # a candidate that (usually) does not conform: two trials of one column swapped / one level replaced
+            disc = {k: list(v) for k, v in exps[0].items() if k in user}
+            rr = random.Random("%s/%d" % (S.spec_hash(cspec["base"]), step))
+            col = rr.choice(sorted(disc))
+            if len(disc[col]) >= 2:
+                i, j = rr.sample(range(len(disc[col])), 2)
+                disc[col][i] = disc[col][j]
             res, err, out = O.quiet(sp.sample_mismatch_experiment, block, disc)
         if err and not op.startswith("synth"):
             counters["aux_call_raised"] = counters.get("aux_call_raised", 0) + 1
